@@ -2426,3 +2426,1168 @@ Proof.
   intros. unfold RInv, ex_raft, ex_prs, PrsInv. cbn [r_prs t_progress].
   repeat (apply Forall_cons; [apply IInv_new|]). apply Forall_nil.
 Qed.
+
+(* ================================================================== *)
+(* 12. Advertised commit indexes: an invariant of the outbound queue     *)
+(* ================================================================== *)
+
+(* the two leader-to-follower message kinds that advertise a commit index *)
+Definition commit_bearing (m : msg) : bool := (m_type m =? MsgAppend) || (m_type m =? MsgHeartbeat).
+
+Definition msg_commit_ok (c : N) (m : msg) : Prop := commit_bearing m = true -> m_commit m <= c.
+
+(* [CInv c r]: the commit index is at least c, and no queued MsgAppend/MsgHeartbeat
+   advertises more than the node's own commit index.  The parameter c makes
+   "the commit index never decreases" part of the same preserved statement. *)
+Definition CInv (c : N) (r : raft) : Prop :=
+  c <= committed (r_log r) /\ Forall (msg_commit_ok (committed (r_log r))) (r_msgs r).
+
+Lemma msg_commit_ok_mono c c' m : c <= c' -> msg_commit_ok c m -> msg_commit_ok c' m.
+Proof. unfold msg_commit_ok. intros Hc H Hb. specialize (H Hb). lia. Qed.
+
+Lemma CInv_grow r r' c :
+  committed (r_log r) <= committed (r_log r') -> r_msgs r' = r_msgs r -> CInv c r -> CInv c r'.
+Proof.
+  intros Hc Hm (H1 & H2). split; [lia|]. rewrite Hm.
+  eapply Forall_impl; [|exact H2]. intros m. apply msg_commit_ok_mono. exact Hc.
+Qed.
+
+Lemma CInv_weaken r c c' : c' <= c -> CInv c r -> CInv c' r.
+Proof. intros Hc (H1 & H2). split; [lia|exact H2]. Qed.
+
+Lemma CInv_le r c : CInv c r -> c <= committed (r_log r).
+Proof. intros (H & _). exact H. Qed.
+
+(* --- monotonicity of the commit index in RaftLog operations --- *)
+Lemma commit_to_mono l tc l' : RaftLog.commit_to l tc = Ok l' -> committed l <= committed l'.
+Proof.
+  unfold RaftLog.commit_to. destruct (tc <=? committed l) eqn:E; [intros H; inversion H; lia|].
+  destruct (RaftLog.last_index l <? tc); [discriminate|]. intros H; inversion H; subst. cbn. lia.
+Qed.
+
+Lemma log_maybe_commit_mono l i t l' b :
+  RaftLog.maybe_commit l i t = Ok (l', b) -> committed l <= committed l'.
+Proof.
+  unfold RaftLog.maybe_commit. destruct (committed l <? i); [|intros H; inversion H; lia].
+  intros H. inv_bind H. destruct (term_ok_eq x t); [|inversion H; lia].
+  inv_bind H. inversion H; subst. eapply commit_to_mono; eassumption.
+Qed.
+
+Lemma log_append_committed l ents l' li : log_append l ents = Ok (l', li) -> committed l' = committed l.
+Proof.
+  unfold log_append. destruct ents as [|e0 t]; [intros H; inversion H; reflexivity|].
+  destruct (e_index e0 =? 0); [discriminate|].
+  destruct (e_index e0 - 1 <? committed l); [discriminate|].
+  intros H. inv_bind H. inversion H; subst. reflexivity.
+Qed.
+
+Lemma maybe_append_mono l i t cmt ents l' res :
+  maybe_append l i t cmt ents = Ok (l', res) -> committed l <= committed l'.
+Proof.
+  unfold maybe_append. intros H. inv_bind H. destruct (negb x); [inversion H; lia|].
+  inv_bind H. inv_bind H.
+  assert (H1 : committed x1 = committed l).
+  { destruct (x0 =? 0); [inversion Hx1; reflexivity|].
+    destruct (x0 <=? committed l); [discriminate|].
+    destruct (i =? u64_max); [discriminate|].
+    destruct (x0 <? i + 1); [discriminate|].
+    match type of Hx1 with (if ?c then _ else _) = _ => destruct c end; [discriminate|].
+    inv_bind Hx1. destruct x2 as [la lia']. cbn [fst] in Hx1. inversion Hx1; subst.
+    pose proof (log_append_committed _ _ _ _ Hx2) as E.
+    match goal with |- committed (if ?c then _ else _) = _ => destruct c end; cbn; exact E. }
+  match type of H with (if ?c then _ else _) = _ => destruct c end; [discriminate|].
+  inv_bind H. inversion H; subst. apply commit_to_mono in Hx2. lia.
+Qed.
+
+Lemma log_restore_mono l s l' : log_restore l s = Ok l' -> committed l <= committed l'.
+Proof.
+  unfold log_restore. destruct (s_index s <? committed l) eqn:E; [discriminate|].
+  intros H; inversion H; subst. cbn. lia.
+Qed.
+
+Lemma maybe_persist_committed l i t l' b : maybe_persist l i t = Ok (l', b) -> committed l' = committed l.
+Proof.
+  unfold maybe_persist. intros H.
+  match type of H with (if ?c then _ else _) = _ => destruct c end; [|inversion H; reflexivity].
+  inv_bind H. destruct (term_ok_eq x t); inversion H; reflexivity.
+Qed.
+
+Lemma maybe_persist_snap_committed l i l' b :
+  maybe_persist_snap l i = Ok (l', b) -> committed l' = committed l.
+Proof.
+  unfold maybe_persist_snap. intros H.
+  destruct (persisted l <? i); [|inversion H; reflexivity].
+  destruct (committed l <? i); [discriminate|].
+  destruct (u_offset (unst l) <=? i); [discriminate|]. inversion H; reflexivity.
+Qed.
+
+Lemma applied_to_committed l i l' : applied_to l i = Ok l' -> committed l' = committed l.
+Proof.
+  unfold applied_to. destruct (i =? 0); [intros H; inversion H; reflexivity|].
+  match goal with |- (if ?c then _ else _) = _ -> _ => destruct c end; [discriminate|].
+  intros H; inversion H; reflexivity.
+Qed.
+
+Lemma stable_entries_committed l i t l' : stable_entries l i t = Ok l' -> committed l' = committed l.
+Proof. unfold stable_entries. intros H. inv_bind H. inversion H; reflexivity. Qed.
+
+Lemma stable_snap_committed l i l' : stable_snap l i = Ok l' -> committed l' = committed l.
+Proof. unfold stable_snap. intros H. inv_bind H. inversion H; reflexivity. Qed.
+
+(* collect the facts above for every log operation in the context *)
+Ltac mono_facts :=
+  repeat match goal with
+  | H : RaftLog.commit_to _ _ = Ok _ |- _ => apply commit_to_mono in H
+  | H : RaftLog.maybe_commit _ _ _ = Ok (_, _) |- _ => apply log_maybe_commit_mono in H
+  | H : log_append _ _ = Ok (_, _) |- _ => apply log_append_committed in H
+  | H : maybe_append _ _ _ _ _ = Ok (_, _) |- _ => apply maybe_append_mono in H
+  | H : log_restore _ _ = Ok _ |- _ => apply log_restore_mono in H
+  | H : maybe_persist _ _ _ = Ok (_, _) |- _ => apply maybe_persist_committed in H
+  | H : maybe_persist_snap _ _ = Ok (_, _) |- _ => apply maybe_persist_snap_committed in H
+  | H : applied_to _ _ = Ok _ |- _ => apply applied_to_committed in H
+  | H : stable_entries _ _ _ = Ok _ |- _ => apply stable_entries_committed in H
+  | H : stable_snap _ _ = Ok _ |- _ => apply stable_snap_committed in H
+  end.
+
+Create HintDb cinv.
+
+Ltac cinv_frame :=
+  match goal with
+  | H : CInv ?c ?r |- CInv ?c _ =>
+      solve [apply (CInv_grow r); [cbn; first [apply N.le_refl | lia]|reflexivity|exact H]]
+  end.
+#[export] Hint Extern 6 (CInv _ _) => cinv_frame : cinv.
+
+Ltac cinv := eauto 10 with cinv nocore.
+
+(* --- send --- *)
+Lemma send_shape r m r' :
+  send r m = Ok r' ->
+  exists m', r' = r <| r_msgs := r_msgs r ++ [m'] |> /\ m_type m' = m_type m /\ m_commit m' = m_commit m.
+Proof.
+  unfold send. intros H. inv_bind H. inversion H; subst. eexists. split; [reflexivity|].
+  assert (Hx1 : m_type x = m_type m /\ m_commit x = m_commit m).
+  { clear H. destruct (is_vote_type _).
+    - destruct (m_term _ =? 0); inversion Hx; subst.
+      destruct (m_from m =? INVALID_ID); cbn; auto.
+    - destruct (negb _); [discriminate|].
+      destruct (_ && _); inversion Hx; subst; destruct (m_from m =? INVALID_ID); cbn; auto. }
+  destruct Hx1 as (A & B).
+  destruct ((m_type x =? MsgRequestVote) || (m_type x =? MsgRequestPreVote));
+    [destruct (0 <? r_priority r)%Z|]; cbn; auto.
+Qed.
+
+Lemma CInv_snoc r c m :
+  msg_commit_ok (committed (r_log r)) m -> CInv c r -> CInv c (r <| r_msgs := r_msgs r ++ [m] |>).
+Proof.
+  intros Hm (H1 & H2). split; [exact H1|]. cbn. apply Forall_app. split; [exact H2|].
+  constructor; [exact Hm|constructor].
+Qed.
+
+Lemma send_CInv r m r' c :
+  send r m = Ok r' -> msg_commit_ok (committed (r_log r)) m -> CInv c r -> CInv c r'.
+Proof.
+  intros H Hm HI. destruct (send_shape _ _ _ H) as (m' & -> & Ht & Hc).
+  apply CInv_snoc; [|exact HI]. unfold msg_commit_ok, commit_bearing in *. rewrite Ht, Hc. exact Hm.
+Qed.
+#[export] Hint Resolve send_CInv : cinv.
+
+(* side conditions: a literal message *)
+Ltac mco :=
+  unfold msg_commit_ok, commit_bearing; cbn;
+  first [discriminate | intros _; lia | intros _; apply N.le_refl].
+#[export] Hint Extern 2 (msg_commit_ok _ _) => solve [mco] : cinv.
+
+Lemma not_bearing_ok c m : commit_bearing m = false -> msg_commit_ok c m.
+Proof. unfold msg_commit_ok. intros ->. discriminate. Qed.
+
+(* --- maybe_send_append and friends --- *)
+Lemma maybe_send_append_CInv r to pr ae r' pr' b c :
+  maybe_send_append r to pr ae = Ok (r', pr', b) -> CInv c r -> CInv c r'.
+Proof.
+  intros H HI.
+  destruct (maybe_send_append_cases _ _ _ _ _ _ _ H) as [(_ & -> & _)|(_ & _ & C)]; [exact HI|].
+  destruct C as [(_ & s & _ & _ & -> & _)|[(_ & _ & t & ents & _ & _ & _ & -> & _)|
+                 (_ & _ & _ & t & ents & msgs' & _ & _ & _ & Hb & ->)]].
+  - apply CInv_snoc; [mco|exact HI].
+  - apply CInv_snoc; [mco|exact HI].
+  - destruct (try_batching_true _ _ _ _ _ _ _ Hb) as (pre & m & post & A & _ & _ & _ & F & _).
+    destruct HI as (H1 & H2). split; [exact H1|]. cbn. rewrite F. rewrite A in H2.
+    apply Forall_app in H2. destruct H2 as [Hp Hq]. inversion Hq; subst.
+    apply Forall_app. split; [exact Hp|]. constructor; [|assumption].
+    unfold msg_commit_ok. cbn. intros _. apply N.le_refl.
+Qed.
+#[export] Hint Resolve maybe_send_append_CInv : cinv.
+
+Lemma send_append_to_CInv r to r' c : send_append_to r to = Ok r' -> CInv c r -> CInv c r'.
+Proof. unfold send_append_to. intros H HI. crush H. assert (CInv c r0) by cinv. cinv. Qed.
+#[export] Hint Resolve send_append_to_CInv : cinv.
+
+Lemma send_append_aggressively_loop_CInv fuel c : forall r to pr r' pr',
+  send_append_aggressively_loop fuel r to pr = Ok (r', pr') -> CInv c r -> CInv c r'.
+Proof.
+  induction fuel as [|f IH]; intros r to pr r' pr' H HI; cbn [send_append_aggressively_loop] in H;
+    [discriminate|].
+  inv_bind H. destruct x as [[r1 pr1] b]. assert (CInv c r1) by cinv. destruct b.
+  - eapply IH; eassumption.
+  - inversion H; subst. assumption.
+Qed.
+
+Lemma send_append_aggressively_CInv r to r' c :
+  send_append_aggressively r to = Ok r' -> CInv c r -> CInv c r'.
+Proof.
+  unfold send_append_aggressively. intros H HI.
+  destruct (get_pr r to) as [pr|] eqn:E; [|discriminate].
+  inv_bind H. destruct x as [r1 pr1]. inversion H; subst.
+  assert (CInv c r1) by (eapply send_append_aggressively_loop_CInv; eassumption). cinv.
+Qed.
+#[export] Hint Resolve send_append_aggressively_CInv : cinv.
+
+Lemma send_heartbeat_CInv r to pr ctx r' c : send_heartbeat r to pr ctx = Ok r' -> CInv c r -> CInv c r'.
+Proof.
+  intros H HI. rewrite send_heartbeat_exact in H. inversion H; subst.
+  apply CInv_snoc; [|exact HI]. unfold msg_commit_ok. intros _. destruct ctx; cbn; lia.
+Qed.
+#[export] Hint Resolve send_heartbeat_CInv : cinv.
+
+Lemma for_each_peer_CInv (f : raft -> N -> Res raft) c :
+  (forall r id r', f r id = Ok r' -> CInv c r -> CInv c r') ->
+  forall ids self r r', for_each_peer ids self f r = Ok r' -> CInv c r -> CInv c r'.
+Proof.
+  intros Hf ids self. induction ids as [|id rest IH]; intros r r' H HI; cbn [for_each_peer] in H.
+  - inversion H; subst. exact HI.
+  - destruct (id =? self); [eapply IH; eassumption|].
+    inv_bind H. eapply IH; [exact H|]. eapply Hf; eassumption.
+Qed.
+
+Lemma bcast_append_CInv r r' c : bcast_append r = Ok r' -> CInv c r -> CInv c r'.
+Proof. unfold bcast_append. apply for_each_peer_CInv. intros; cinv. Qed.
+#[export] Hint Resolve bcast_append_CInv : cinv.
+
+Lemma bcast_heartbeat_with_ctx_CInv r ctx r' c :
+  bcast_heartbeat_with_ctx r ctx = Ok r' -> CInv c r -> CInv c r'.
+Proof.
+  unfold bcast_heartbeat_with_ctx. apply for_each_peer_CInv.
+  intros r0 id r1 H HI. cbv beta in H. destruct (get_pr r0 id); [cinv|discriminate].
+Qed.
+#[export] Hint Resolve bcast_heartbeat_with_ctx_CInv : cinv.
+
+Lemma bcast_heartbeat_CInv r r' c : bcast_heartbeat r = Ok r' -> CInv c r -> CInv c r'.
+Proof. unfold bcast_heartbeat. cinv. Qed.
+#[export] Hint Resolve bcast_heartbeat_CInv : cinv.
+
+Lemma maybe_commit_CInv r r' b c : maybe_commit r = Ok (r', b) -> CInv c r -> CInv c r'.
+Proof.
+  unfold maybe_commit. intros H HI. inv_bind H. destruct x as [l' b0].
+  assert (H1 : CInv c (r <| r_log := l' |>)) by (mono_facts; cinv).
+  crush H; cinv.
+Qed.
+#[export] Hint Resolve maybe_commit_CInv : cinv.
+
+Lemma maybe_increase_uncommitted_size_CInv r ents r' ok c :
+  maybe_increase_uncommitted_size r ents = (r', ok) -> CInv c r -> CInv c r'.
+Proof.
+  intros H HI. destruct (uncommitted_effect _ _ _ _ H) as (A & B).
+  destruct ok; [destruct (B eq_refl) as [(_ & ->)|(_ & ->)]; cinv|rewrite (A eq_refl); exact HI].
+Qed.
+#[export] Hint Resolve maybe_increase_uncommitted_size_CInv : cinv.
+
+Lemma reduce_uncommitted_size_CInv r ents c : CInv c r -> CInv c (reduce_uncommitted_size r ents).
+Proof.
+  intros HI. destruct (reduce_uncommitted_spec r ents) as (_ & _ & _ & [E|E] & _); rewrite E; cinv.
+Qed.
+#[export] Hint Resolve reduce_uncommitted_size_CInv : cinv.
+
+Lemma append_entry_CInv r es r' b c : append_entry r es = Ok (r', b) -> CInv c r -> CInv c r'.
+Proof.
+  unfold append_entry. intros H HI.
+  destruct (maybe_increase_uncommitted_size r es) as [r1 ok] eqn:E.
+  assert (CInv c r1) by cinv. destruct (negb ok); [inversion H; subst; assumption|].
+  inv_bind H. destruct x as [l' li]. inversion H; subst. cbn [fst]. mono_facts.
+  apply (CInv_grow r1); [cbn; lia|reflexivity|assumption].
+Qed.
+#[export] Hint Resolve append_entry_CInv : cinv.
+
+Lemma reset_CInv r t r' c : reset r t = Ok r' -> CInv c r -> CInv c r'.
+Proof.
+  unfold reset. intros H HI.
+  set (r0 := if negb (r_term r =? t) then r <| r_term := t |> <| r_vote := INVALID_ID |> else r) in H.
+  assert (H0 : CInv c r0) by (subst r0; destruct (negb (r_term r =? t)); cinv).
+  clearbody r0. destruct (r_draws r0) as [|d ds]; [discriminate|]. inversion H; subst. clear H.
+  cinv.
+Qed.
+#[export] Hint Resolve reset_CInv : cinv.
+
+Lemma become_follower_CInv r t l r' c : become_follower r t l = Ok r' -> CInv c r -> CInv c r'.
+Proof. unfold become_follower. intros H HI. crush H. assert (CInv c x) by cinv. cinv. Qed.
+#[export] Hint Resolve become_follower_CInv : cinv.
+
+Lemma become_candidate_CInv r r' c : become_candidate r = Ok r' -> CInv c r -> CInv c r'.
+Proof. unfold become_candidate. intros H HI. crush H. assert (CInv c x) by cinv. cinv. Qed.
+#[export] Hint Resolve become_candidate_CInv : cinv.
+
+Lemma become_pre_candidate_CInv r r' c : become_pre_candidate r = Ok r' -> CInv c r -> CInv c r'.
+Proof. unfold become_pre_candidate. intros H HI. crush H. cinv. Qed.
+#[export] Hint Resolve become_pre_candidate_CInv : cinv.
+
+Lemma become_leader_CInv r r' c : become_leader r = Ok r' -> CInv c r -> CInv c r'.
+Proof.
+  unfold become_leader. intros H HI.
+  destruct (role_eqb (r_state r) Follower); [discriminate|].
+  inv_bind H. assert (Hx0 : CInv c x) by cinv.
+  match type of H with (if ?c then _ else _) = _ => destruct c end; [discriminate|].
+  match type of H with (match ?g with _ => _ end) = _ => destruct g as [pr|] eqn:Eg end; [|discriminate].
+  inv_bind H. destruct x0 as [r6 ok]. destruct ok; [|discriminate]. inversion H; subst.
+  eapply append_entry_CInv; [exact Hx1|]. cinv.
+Qed.
+#[export] Hint Resolve become_leader_CInv : cinv.
+
+Lemma poll_gen_CInv rc r from v r' res c :
+  (forall r r', rc r = Ok r' -> CInv c r -> CInv c r') ->
+  poll_gen rc r from v = Ok (r', res) -> CInv c r -> CInv c r'.
+Proof.
+  unfold poll_gen. intros Hrc H HI.
+  set (r0 := r <| r_prs := (r_prs r) <| t_votes := _ |> |>) in H.
+  assert (H0 : CInv c r0) by (subst r0; cinv). clearbody r0.
+  crush H; cinv.
+Qed.
+
+Definition plain_type (t : N) : Prop := (t =? MsgAppend) || (t =? MsgHeartbeat) = false.
+
+Lemma send_vote_requests_CInv ids c : forall r vm t cm ct tr r',
+  plain_type vm ->
+  send_vote_requests ids r vm t cm ct tr = Ok r' -> CInv c r -> CInv c r'.
+Proof.
+  induction ids as [|id rest IH]; intros r vm t cm ct tr r' Hvm H HI; cbn [send_vote_requests] in H.
+  - inversion H; subst; exact HI.
+  - destruct (id =? r_id r); [eapply IH; eassumption|].
+    inv_bind H. inv_bind H. eapply IH; [exact Hvm|exact H|].
+    eapply send_CInv; [exact Hx0| |exact HI].
+    apply not_bearing_ok. unfold commit_bearing. destruct tr; exact Hvm.
+Qed.
+
+Lemma campaign_real_CInv tr r r' c : campaign_real tr r = Ok r' -> CInv c r -> CInv c r'.
+Proof.
+  unfold campaign_real. intros H HI. inv_bind H. inv_bind H. destruct x0 as [r2 res].
+  assert (CInv c r2).
+  { eapply poll_gen_CInv; [|exact Hx0|cinv]. intros; discriminate. }
+  destruct res; try (inversion H; subst; assumption);
+    inv_bind H; (eapply send_vote_requests_CInv; [|exact H|assumption]; reflexivity).
+Qed.
+#[export] Hint Resolve campaign_real_CInv : cinv.
+
+Lemma poll_CInv r from v r' res c : poll r from v = Ok (r', res) -> CInv c r -> CInv c r'.
+Proof. unfold poll. apply poll_gen_CInv. intros; cinv. Qed.
+#[export] Hint Resolve poll_CInv : cinv.
+
+Lemma campaign_pre_CInv r r' c : campaign_pre r = Ok r' -> CInv c r -> CInv c r'.
+Proof.
+  unfold campaign_pre. intros H HI. inv_bind H. inv_bind H. destruct x0 as [r2 res].
+  assert (CInv c r2) by cinv.
+  destruct res; try (inversion H; subst; assumption);
+    inv_bind H; (eapply send_vote_requests_CInv; [|exact H|assumption]; reflexivity).
+Qed.
+#[export] Hint Resolve campaign_pre_CInv : cinv.
+
+Lemma hup_CInv r tl r' c : hup r tl = Ok r' -> CInv c r -> CInv c r'.
+Proof. unfold hup. intros H HI. crush H; cinv. Qed.
+#[export] Hint Resolve hup_CInv : cinv.
+
+Lemma maybe_commit_by_vote_CInv r m r' c : maybe_commit_by_vote r m = Ok r' -> CInv c r -> CInv c r'.
+Proof.
+  unfold maybe_commit_by_vote. intros H HI.
+  destruct ((m_commit m =? 0) || (m_commit_term m =? 0)); [inversion H; subst; exact HI|].
+  destruct ((m_commit m <=? committed (r_log r)) || is_leader r); [inversion H; subst; exact HI|].
+  inv_bind H. destruct x as [l' b].
+  assert (H1 : CInv c (r <| r_log := l' |>)) by (mono_facts; cinv).
+  crush H; cinv.
+Qed.
+#[export] Hint Resolve maybe_commit_by_vote_CInv : cinv.
+
+Lemma handle_ready_read_index_CInv r req i r' om c :
+  handle_ready_read_index r req i = Ok (r', om) -> CInv c r ->
+  CInv c r' /\ (forall mm, om = Some mm -> commit_bearing mm = false).
+Proof.
+  unfold handle_ready_read_index. intros H HI.
+  match type of H with (if ?c then _ else _) = _ => destruct c end.
+  - inv_bind H. inversion H; subst. split; [cinv|discriminate].
+  - inversion H; subst. split; [exact HI|]. intros mm E. inversion E; subst. reflexivity.
+Qed.
+
+Lemma respond_reads_CInv rss c : forall r r', respond_reads r rss = Ok r' -> CInv c r -> CInv c r'.
+Proof.
+  induction rss as [|rs rest IH]; intros r r' H HI; cbn [respond_reads] in H.
+  - inversion H; subst; exact HI.
+  - inv_bind H. destruct x as [r1 om]. inv_bind H. eapply IH; [exact H|].
+    destruct (handle_ready_read_index_CInv _ _ _ _ _ _ Hx HI) as [A B].
+    destruct om as [mm|]; [|inversion Hx0; subst; assumption].
+    eapply send_CInv; [exact Hx0|apply not_bearing_ok; apply B; reflexivity|exact A].
+Qed.
+#[export] Hint Resolve respond_reads_CInv : cinv.
+
+Lemma send_timeout_now_CInv r to r' c : send_timeout_now r to = Ok r' -> CInv c r -> CInv c r'.
+Proof. unfold send_timeout_now. intros H HI. eapply send_CInv; [exact H|mco|exact HI]. Qed.
+#[export] Hint Resolve send_timeout_now_CInv : cinv.
+
+Lemma send_request_snapshot_CInv r r' c : send_request_snapshot r = Ok r' -> CInv c r -> CInv c r'.
+Proof. unfold send_request_snapshot. intros H HI. crush H; cinv. Qed.
+#[export] Hint Resolve send_request_snapshot_CInv : cinv.
+
+Lemma handle_append_entries_CInv r m r' c : handle_append_entries r m = Ok r' -> CInv c r -> CInv c r'.
+Proof.
+  unfold handle_append_entries. intros H HI.
+  destruct (negb (r_pending_request_snapshot r =? INVALID_INDEX)); [cinv|].
+  destruct (m_index m <? committed (r_log r)); [cinv|].
+  inv_bind H. destruct x as [l' res].
+  assert (H1 : CInv c (r <| r_log := l' |>)) by (mono_facts; cinv).
+  crush H; cinv.
+Qed.
+#[export] Hint Resolve handle_append_entries_CInv : cinv.
+
+Lemma handle_heartbeat_CInv r m r' c : handle_heartbeat r m = Ok r' -> CInv c r -> CInv c r'.
+Proof.
+  unfold handle_heartbeat. intros H HI. inv_bind H.
+  assert (H1 : CInv c (r <| r_log := x |>)) by (mono_facts; cinv).
+  crush H; cinv.
+Qed.
+#[export] Hint Resolve handle_heartbeat_CInv : cinv.
+
+Lemma post_conf_change_CInv r r' cs c : post_conf_change r = Ok (r', cs) -> CInv c r -> CInv c r'.
+Proof.
+  unfold post_conf_change. intros H HI.
+  set (r0 := r <| r_promotable := _ |>) in H.
+  assert (H0 : CInv c r0) by (subst r0; cinv). clearbody r0.
+  match type of H with (if ?c then _ else _) = _ => destruct c end; [inversion H; subst; exact H0|].
+  match type of H with (if ?c then _ else _) = _ => destruct c end; [inversion H; subst; exact H0|].
+  inv_bind H. destruct x as [r1 b]. assert (H1 : CInv c r1) by cinv.
+  inv_bind H. assert (H2 : CInv c x).
+  { destruct b; [cinv|]. eapply for_each_peer_CInv; [|exact Hx0|exact H1].
+    intros ra id rb Hf Ha. cbv beta in Hf. destruct (get_pr ra id) as [pr|] eqn:Eg; [|discriminate].
+    inv_bind Hf. destruct x0 as [[rc prc] bc]. inversion Hf; subst.
+    assert (CInv c rc) by cinv. cinv. }
+  inv_bind H. assert (H3 : CInv c x0).
+  { destruct (ro_last_pending_request_ctx (r_read_only x)) as [ctx|]; [|inversion Hx1; subst; exact H2].
+    destruct (ro_recv_ack (r_read_only x) (r_id x) ctx) as [ro' acks].
+    assert (CInv c (x <| r_read_only := ro' |>)) by cinv.
+    destruct acks as [a|]; [|inversion Hx1; subst; assumption].
+    match type of Hx1 with (if ?c then _ else _) = _ => destruct c end;
+      [|inversion Hx1; subst; assumption].
+    inv_bind Hx1. destruct x1 as [ro2 rss].
+    eapply respond_reads_CInv; [exact Hx1|]. cinv. }
+  inversion H; subst.
+  destruct (r_lead_transferee x0); [|exact H3].
+  match goal with |- CInv _ (if ?c then _ else _) => destruct c end; cinv.
+Qed.
+#[export] Hint Resolve post_conf_change_CInv : cinv.
+
+Lemma restore_CInv r s r' b c : restore r s = Ok (r', b) -> CInv c r -> CInv c r'.
+Proof.
+  unfold restore. intros H HI.
+  destruct (s_index s <? committed (r_log r)); [inversion H; subst; exact HI|].
+  destruct (negb (role_eqb (r_state r) Follower)).
+  { inv_bind H. inversion H; subst. cinv. }
+  match type of H with (if ?c then _ else _) = _ => destruct c end; [inversion H; subst; exact HI|].
+  inv_bind H.
+  match type of H with (if ?c then _ else _) = _ => destruct c end.
+  { inv_bind H. inversion H; subst. mono_facts. cinv. }
+  inv_bind H.
+  destruct (ConfChange.restore empty_tracker (s_cs s)) as [[c' ids']|e]; [|discriminate].
+  inv_bind H. destruct x1 as [r1 new_cs].
+  assert (H1 : CInv c r1).
+  { eapply post_conf_change_CInv; [exact Hx1|]. mono_facts.
+    apply (CInv_grow r); [cbn; lia|reflexivity|exact HI]. }
+  match type of H with (if ?c then _ else _) = _ => destruct c end; [discriminate|].
+  destruct (get_pr r1 (r_id r1)) as [pr|] eqn:Eg; [|discriminate].
+  destruct (next_idx pr =? 0); [discriminate|]. inversion H; subst. cinv.
+Qed.
+#[export] Hint Resolve restore_CInv : cinv.
+
+Lemma handle_snapshot_CInv r m r' c : handle_snapshot r m = Ok r' -> CInv c r -> CInv c r'.
+Proof.
+  unfold handle_snapshot. intros H HI. inv_bind H. destruct x as [r1 ok].
+  assert (CInv c r1) by cinv. destruct ok; cinv.
+Qed.
+#[export] Hint Resolve handle_snapshot_CInv : cinv.
+
+Lemma handle_append_response_CInv r m r' c :
+  handle_append_response r m = Ok r' -> CInv c r -> CInv c r'.
+Proof.
+  unfold handle_append_response. intros H HI. inv_bind H.
+  destruct (get_pr r (m_from m)) as [pr0|] eqn:Eg; [|inversion H; subst; exact HI].
+  set (pr := update_committed (set_recent_active pr0 true) (m_commit m)) in H. clearbody pr.
+  destruct (m_reject m).
+  - destruct (maybe_decr_to pr (m_index m) x (m_request_snapshot m)) as [pr1 dec] eqn:Ed.
+    destruct dec; [|inversion H; subst; cinv].
+    eapply send_append_to_CInv; [exact H|]. cinv.
+  - destruct (maybe_update pr (m_index m)) as [pr1 upd] eqn:Eu.
+    destruct (negb upd); [inversion H; subst; cinv|].
+    inv_bind H. inv_bind H. destruct x1 as [r1 cmt].
+    assert (H1 : CInv c r1) by (eapply maybe_commit_CInv; [exact Hx1|cinv]).
+    inv_bind H. assert (H2 : CInv c x1).
+    { destruct cmt; [destruct (should_bcast_commit r1); [cinv|inversion Hx2; subst; exact H1]|].
+      destruct (is_paused pr); [cinv|inversion Hx2; subst; exact H1]. }
+    inv_bind H. assert (H3 : CInv c x2) by cinv.
+    crush H; cinv.
+Qed.
+#[export] Hint Resolve handle_append_response_CInv : cinv.
+
+Lemma handle_heartbeat_response_CInv r m r' c :
+  handle_heartbeat_response r m = Ok r' -> CInv c r -> CInv c r'.
+Proof.
+  unfold handle_heartbeat_response. intros H HI.
+  destruct (get_pr r (m_from m)) as [pr0|] eqn:Eg; [|inversion H; subst; exact HI].
+  set (pr := resume (set_recent_active (update_committed pr0 (m_commit m)) true)) in H. clearbody pr.
+  inv_bind H. inv_bind H. assert (H1 : CInv c x0).
+  { match type of Hx0 with (if ?c then _ else _) = _ => destruct c end;
+      [|inversion Hx0; subst; cinv].
+    inv_bind Hx0. destruct x1 as [[ra pra] ba]. inversion Hx0; subst.
+    assert (CInv c ra) by cinv. cinv. }
+  match type of H with (if ?c then _ else _) = _ => destruct c end; [inversion H; subst; exact H1|].
+  destruct (ro_recv_ack (r_read_only x0) (m_from m) (m_context m)) as [ro' acks].
+  assert (CInv c (x0 <| r_read_only := ro' |>)) by cinv.
+  destruct acks as [a|]; [|inversion H; subst; assumption].
+  match type of H with (if ?c then _ else _) = _ => destruct c end; [|inversion H; subst; assumption].
+  inv_bind H. destruct x1 as [ro2 rss]. eapply respond_reads_CInv; [exact H|]. cinv.
+Qed.
+#[export] Hint Resolve handle_heartbeat_response_CInv : cinv.
+
+Lemma handle_transfer_leader_CInv r m r' c :
+  handle_transfer_leader r m = Ok r' -> CInv c r -> CInv c r'.
+Proof.
+  unfold handle_transfer_leader. intros H HI.
+  destruct (get_pr r (m_from m)) as [p0|]; [|inversion H; subst; exact HI].
+  destruct (IdSet.mem (m_from m) (learners (conf_of r))); [inversion H; subst; exact HI|].
+  assert (Hcont : forall ra, CInv c ra ->
+    (if m_from m =? r_id ra then Ok ra else
+       let rb := ra <| r_election_elapsed := 0 |> <| r_lead_transferee := Some (m_from m) |> in
+       match get_pr rb (m_from m) with
+       | None => Panic site_pr_unwrap
+       | Some pr =>
+           if matched pr =? RaftLog.last_index (r_log rb) then send_timeout_now rb (m_from m)
+           else y <- maybe_send_append rb (m_from m) pr true ;;
+                let '(r', pr', _) := y in Ok (put_pr r' (m_from m) pr')
+       end) = Ok r' -> CInv c r').
+  { intros ra Ha Hc. destruct (m_from m =? r_id ra); [inversion Hc; subst; exact Ha|].
+    cbv zeta in Hc.
+    set (rb := ra <| r_election_elapsed := 0 |> <| r_lead_transferee := Some (m_from m) |>) in Hc.
+    assert (Hb : CInv c rb) by (subst rb; cinv). clearbody rb.
+    destruct (get_pr rb (m_from m)) as [pr|] eqn:Eg; [|discriminate].
+    destruct (matched pr =? RaftLog.last_index (r_log rb)); [cinv|].
+    inv_bind Hc. destruct x as [[rc prc] bc]. inversion Hc; subst.
+    assert (CInv c rc) by cinv. cinv. }
+  destruct (r_lead_transferee r) as [last|].
+  - destruct (last =? m_from m); [inversion H; subst; exact HI|].
+    apply (Hcont (r <| r_lead_transferee := None |>)); [cinv|exact H].
+  - apply (Hcont r HI H).
+Qed.
+#[export] Hint Resolve handle_transfer_leader_CInv : cinv.
+
+Lemma handle_snapshot_status_CInv r m r' c :
+  handle_snapshot_status r m = Ok r' -> CInv c r -> CInv c r'.
+Proof.
+  unfold handle_snapshot_status. intros H HI.
+  destruct (get_pr r (m_from m)) as [pr|] eqn:Eg; [|inversion H; subst; exact HI].
+  destruct (negb (pstate_eqb (pr_state pr) Snapshot)); [inversion H; subst; exact HI|].
+  inversion H; subst. cinv.
+Qed.
+#[export] Hint Resolve handle_snapshot_status_CInv : cinv.
+
+Lemma handle_unreachable_CInv r m r' c : handle_unreachable r m = Ok r' -> CInv c r -> CInv c r'.
+Proof.
+  unfold handle_unreachable. intros H HI.
+  destruct (get_pr r (m_from m)) as [pr|] eqn:Eg; [|inversion H; subst; exact HI].
+  inversion H; subst. destruct (pstate_eqb (pr_state pr) Replicate); cinv.
+Qed.
+#[export] Hint Resolve handle_unreachable_CInv : cinv.
+
+Lemma filter_conf_changes_CInv r ents info i r' ents' ok c :
+  filter_conf_changes r ents info i = (r', ents', ok) -> CInv c r -> CInv c r'.
+Proof.
+  intros H HI. destruct (filter_conf_changes_state _ _ _ _ _ _ _ H) as [->|(j & ->)]; cinv.
+Qed.
+#[export] Hint Resolve filter_conf_changes_CInv : cinv.
+
+Lemma step_leader_CInv r m r' c0 c : step_leader r m = Ok (r', c0) -> CInv c r -> CInv c r'.
+Proof.
+  unfold step_leader. intros H HI.
+  destruct (m_type m =? MsgBeat). { crush H; cinv. }
+  destruct (m_type m =? MsgCheckQuorum).
+  { destruct (quorum_recently_active (r_prs r) (r_id r)) as [prs' active] eqn:Eq.
+    assert (H1 : CInv c (r <| r_prs := prs' |>)) by cinv.
+    crush H; cinv. }
+  destruct (m_type m =? MsgPropose).
+  { destruct (m_entries m); [discriminate|].
+    destruct (get_pr r (r_id r)); [|inversion H; subst; exact HI].
+    destruct (r_lead_transferee r); [inversion H; subst; exact HI|].
+    match type of H with context [filter_conf_changes ?a ?b ?c ?d] =>
+      destruct (filter_conf_changes a b c d) as [[r1 ents] ok] eqn:Ef end.
+    assert (H1 : CInv c r1) by cinv.
+    crush H; cinv. }
+  destruct (m_type m =? MsgReadIndex).
+  { inv_bind H. destruct (negb x); [inversion H; subst; exact HI|].
+    assert (Hans : forall ra c1,
+      (x <- handle_ready_read_index r m (committed (r_log r)) ;;
+       (let '(r1, om) := x in
+        r2 <- match om with Some mm => send r1 mm | None => Ok r1 end ;; Ok (r2, E_OK))) = Ok (ra, c1) ->
+      CInv c ra).
+    { intros ra c1 Ha. inv_bind Ha. destruct x0 as [r1 om].
+      destruct (handle_ready_read_index_CInv _ _ _ _ _ _ Hx0 HI) as [A B].
+      inv_bind Ha. inversion Ha; subst. destruct om as [mm|]; [|inversion Hx1; subst; assumption].
+      eapply send_CInv; [exact Hx1|apply not_bearing_ok; apply B; reflexivity|exact A]. }
+    match type of H with (if ?c then _ else _) = _ => destruct c end; [eapply Hans; exact H|].
+    match type of H with (if ?c then _ else _) = _ => destruct c end; [|eapply Hans; exact H].
+    inv_bind H. inv_bind H. inv_bind H. inversion H; subst.
+    eapply bcast_heartbeat_with_ctx_CInv; [exact Hx2|]. cinv. }
+  crush H; cinv.
+Qed.
+#[export] Hint Resolve step_leader_CInv : cinv.
+
+Lemma step_candidate_CInv r m r' c0 c : step_candidate r m = Ok (r', c0) -> CInv c r -> CInv c r'.
+Proof.
+  unfold step_candidate. intros H HI.
+  destruct (m_type m =? MsgPropose); [inversion H; subst; exact HI|].
+  match type of H with (if ?c then _ else _) = _ => destruct c end.
+  { destruct (negb (r_term r =? m_term m)); [discriminate|].
+    inv_bind H. assert (CInv c x) by cinv. inv_bind H. inversion H; subst.
+    destruct (m_type m =? MsgAppend); [cinv|]. destruct (m_type m =? MsgHeartbeat); cinv. }
+  match type of H with (if ?c then _ else _) = _ => destruct c end; [|inversion H; subst; exact HI].
+  match type of H with (if ?c then _ else _) = _ => destruct c end; [inversion H; subst; exact HI|].
+  inv_bind H. destruct x as [r1 res]. cbn [fst] in H. inv_bind H. inversion H; subst.
+  assert (CInv c r1) by cinv. cinv.
+Qed.
+#[export] Hint Resolve step_candidate_CInv : cinv.
+
+(* a forwarded message keeps its type *)
+Lemma forward_ok c m to k :
+  (m_type m =? k) = true -> plain_type k -> msg_commit_ok c (m <| m_to := to |>).
+Proof.
+  intros E Hk. apply N.eqb_eq in E. apply not_bearing_ok. unfold commit_bearing.
+  change (m_type (m <| m_to := to |>)) with (m_type m). rewrite E. exact Hk.
+Qed.
+
+Lemma step_follower_CInv r m r' c0 c : step_follower r m = Ok (r', c0) -> CInv c r -> CInv c r'.
+Proof.
+  unfold step_follower. intros H HI.
+  assert (Hf : CInv c (r <| r_election_elapsed := 0 |> <| r_leader_id := m_from m |>)) by cinv.
+  destruct (m_type m =? MsgPropose) eqn:E1.
+  { destruct (r_leader_id r =? INVALID_ID); [inversion H; subst; exact HI|].
+    destruct (r_disable_proposal_forwarding r); [inversion H; subst; exact HI|].
+    inv_bind H. inversion H; subst.
+    eapply send_CInv; [exact Hx|eapply forward_ok; [exact E1|reflexivity]|exact HI]. }
+  destruct (m_type m =? MsgAppend). { crush H; cinv. }
+  destruct (m_type m =? MsgHeartbeat). { crush H; cinv. }
+  destruct (m_type m =? MsgSnapshot). { crush H; cinv. }
+  destruct (m_type m =? MsgTransferLeader) eqn:E5.
+  { destruct (r_leader_id r =? INVALID_ID); [inversion H; subst; exact HI|].
+    inv_bind H. inversion H; subst.
+    eapply send_CInv; [exact Hx|eapply forward_ok; [exact E5|reflexivity]|exact HI]. }
+  destruct (m_type m =? MsgTimeoutNow). { crush H; cinv. }
+  destruct (m_type m =? MsgReadIndex) eqn:E7.
+  { destruct (r_leader_id r =? INVALID_ID); [inversion H; subst; exact HI|].
+    inv_bind H. inversion H; subst.
+    eapply send_CInv; [exact Hx|eapply forward_ok; [exact E7|reflexivity]|exact HI]. }
+  destruct (m_type m =? MsgReadIndexResp); [|inversion H; subst; exact HI].
+  destruct (m_entries m) as [|e [|e2 t]]; try (inversion H; subst; exact HI).
+  inv_bind H. destruct x as [l' b]. inversion H; subst. cbn [fst]. mono_facts. cbn in Hx.
+  apply (CInv_grow r); [cbn; lia|reflexivity|exact HI].
+Qed.
+#[export] Hint Resolve step_follower_CInv : cinv.
+
+Lemma vote_resp_msg_type_plain t rt : vote_resp_msg_type t = Ok rt -> plain_type rt.
+Proof.
+  unfold vote_resp_msg_type. destruct (t =? MsgRequestVote); [intros H; inversion H; reflexivity|].
+  destruct (t =? MsgRequestPreVote); [intros H; inversion H; reflexivity|discriminate].
+Qed.
+
+Lemma new_message_ok c to ty from (f : msg -> msg) :
+  (forall x, m_type (f x) = m_type x) -> plain_type ty -> msg_commit_ok c (f (new_message to ty from)).
+Proof.
+  intros Hf Hty. apply not_bearing_ok. unfold commit_bearing. rewrite Hf. exact Hty.
+Qed.
+
+Theorem step_CInv r m r' c0 c : step r m = Ok (r', c0) -> CInv c r -> CInv c r'.
+Proof.
+  unfold step. intros H HI. inv_bind H.
+  assert (Hpre : match x with inl (r1, _) => CInv c r1 | inr r1 => CInv c r1 end).
+  { clear H. destruct (m_term m =? 0); [inversion Hx; subst; exact HI|].
+    destruct (r_term r <? m_term m).
+    - match type of Hx with (if ?c then _ else _) = _ => destruct c end;
+        [inversion Hx; subst; exact HI|].
+      match type of Hx with (if ?c then _ else _) = _ => destruct c end;
+        [inversion Hx; subst; exact HI|].
+      match type of Hx with (if ?c then _ else _) = _ => destruct c end;
+        inv_bind Hx; inversion Hx; subst; cinv.
+    - destruct (m_term m <? r_term r); [|inversion Hx; subst; exact HI].
+      match type of Hx with (if ?c then _ else _) = _ => destruct c end;
+        [inv_bind Hx; inversion Hx; subst; cinv|].
+      match type of Hx with (if ?c then _ else _) = _ => destruct c end;
+        [inv_bind Hx; inversion Hx; subst; cinv|inversion Hx; subst; exact HI]. }
+  destruct x as [[r1 c1]|r1]; [inversion H; subst; exact Hpre|].
+  destruct (m_type m =? MsgHup). { crush H; cinv. }
+  match type of H with (if ?c then _ else _) = _ => destruct c end.
+  { inv_bind H. inv_bind H. pose proof (vote_resp_msg_type_plain _ _ Hx1) as Hrt.
+    match type of H with (if ?c then _ else _) = _ => destruct c end.
+    - inv_bind H. assert (CInv c x1).
+      { eapply send_CInv; [exact Hx2| |exact Hpre].
+        apply (new_message_ok _ _ _ _ (fun x => x <| m_reject := false |> <| m_term := m_term m |>));
+          [reflexivity|exact Hrt]. }
+      destruct (m_type m =? MsgRequestVote); inversion H; subst; cinv.
+    - inv_bind H. inv_bind H. inv_bind H. inversion H; subst.
+      eapply maybe_commit_by_vote_CInv; [exact Hx4|].
+      eapply send_CInv; [exact Hx3| |exact Hpre].
+      apply (new_message_ok _ _ _ _
+               (fun y => y <| m_reject := true |> <| m_term := r_term r1 |> <| m_commit := fst x1 |>
+                           <| m_commit_term := snd x1 |>)); [reflexivity|exact Hrt]. }
+  destruct (r_state r1); cinv.
+Qed.
+#[export] Hint Resolve step_CInv : cinv.
+
+Lemma tick_election_CInv r r' b c : tick_election r = Ok (r', b) -> CInv c r -> CInv c r'.
+Proof.
+  unfold tick_election. intros H HI.
+  set (r0 := r <| r_election_elapsed := r_election_elapsed r + 1 |>) in H.
+  assert (H0 : CInv c r0) by (subst r0; cinv). clearbody r0.
+  match type of H with (if ?c then _ else _) = _ => destruct c end; [inversion H; subst; exact H0|].
+  inv_bind H. destruct x as [r1 c1]. inversion H; subst. cbn [fst].
+  eapply step_CInv; [exact Hx|]. cinv.
+Qed.
+#[export] Hint Resolve tick_election_CInv : cinv.
+
+Lemma tick_heartbeat_CInv r r' b c : tick_heartbeat r = Ok (r', b) -> CInv c r -> CInv c r'.
+Proof.
+  unfold tick_heartbeat. intros H HI.
+  set (r0 := r <| r_heartbeat_elapsed := r_heartbeat_elapsed r + 1 |>
+               <| r_election_elapsed := r_election_elapsed r + 1 |>) in H.
+  assert (H0 : CInv c r0) by (subst r0; cinv). clearbody r0.
+  inv_bind H. destruct x as [r1 hr].
+  assert (H1 : CInv c r1).
+  { destruct (r_election_timeout r0 <=? r_election_elapsed r0); [|inversion Hx; subst; exact H0].
+    inv_bind Hx. destruct x as [ra ha].
+    assert (Ha : CInv c ra).
+    { destruct (r_check_quorum (r0 <| r_election_elapsed := 0 |>)).
+      - inv_bind Hx0. destruct x as [rb cb]. inversion Hx0; subst. cbn [fst].
+        eapply step_CInv; [exact Hx1|]. cinv.
+      - inversion Hx0; subst. cinv. }
+    inversion Hx; subst.
+    match goal with |- CInv _ (if ?c then _ else _) => destruct c end; cinv. }
+  destruct (negb (is_leader r1)); [inversion H; subst; exact H1|].
+  destruct (r_heartbeat_timeout r1 <=? r_heartbeat_elapsed r1); [|inversion H; subst; exact H1].
+  inv_bind H. destruct x as [rb cb]. inversion H; subst. cbn [fst].
+  eapply step_CInv; [exact Hx0|]. cinv.
+Qed.
+#[export] Hint Resolve tick_heartbeat_CInv : cinv.
+
+Theorem tick_CInv r r' b c : tick r = Ok (r', b) -> CInv c r -> CInv c r'.
+Proof. unfold tick. destruct (r_state r); cinv. Qed.
+
+Theorem on_persist_entries_CInv r i t r' c : on_persist_entries r i t = Ok r' -> CInv c r -> CInv c r'.
+Proof.
+  unfold on_persist_entries. intros H HI. inv_bind H. destruct x as [l' upd].
+  set (r0 := r <| r_log := l' |>) in H.
+  assert (H0 : CInv c r0).
+  { subst r0. mono_facts. apply (CInv_grow r); [cbn; lia|reflexivity|exact HI]. }
+  clearbody r0.
+  destruct (upd && is_leader r0); [|inversion H; subst; exact H0].
+  destruct (get_pr r0 (r_id r0)) as [pr|] eqn:Eg; [|inversion H; subst; exact H0].
+  destruct (maybe_update pr i) as [pr' u] eqn:Eu.
+  assert (H1 : CInv c (put_pr r0 (r_id r0) pr')) by cinv.
+  destruct u; [|inversion H; subst; exact H1].
+  inv_bind H. destruct x as [r1 c1]. assert (CInv c r1) by cinv.
+  destruct (c1 && should_bcast_commit r1); [cinv|inversion H; subst; assumption].
+Qed.
+
+Theorem on_persist_snap_CInv r i r' c : on_persist_snap r i = Ok r' -> CInv c r -> CInv c r'.
+Proof.
+  unfold on_persist_snap. intros H HI. inv_bind H. destruct x as [l' b]. inversion H; subst.
+  cbn [fst]. mono_facts. apply (CInv_grow r); [cbn; lia|reflexivity|exact HI].
+Qed.
+
+Theorem commit_apply_CInv r a r' c : commit_apply r a = Ok r' -> CInv c r -> CInv c r'.
+Proof.
+  unfold commit_apply, commit_apply_internal. intros H HI. cbn [negb] in H. inv_bind H.
+  set (r0 := r <| r_log := x |>) in H.
+  assert (H0 : CInv c r0).
+  { subst r0. mono_facts. apply (CInv_grow r); [cbn; lia|reflexivity|exact HI]. }
+  clearbody r0.
+  match type of H with (if ?c then _ else _) = _ => destruct c end; [|inversion H; subst; exact H0].
+  inv_bind H. destruct x0 as [r1 ok]. assert (CInv c r1) by cinv.
+  destruct (negb ok); [discriminate|]. inversion H; subst. cinv.
+Qed.
+
+Theorem raft_apply_conf_change_CInv r cc r' ocs c :
+  raft_apply_conf_change r cc = Ok (r', ocs) -> CInv c r -> CInv c r'.
+Proof.
+  unfold raft_apply_conf_change. intros H HI.
+  match type of H with (match ?res with _ => _ end) = _ => destruct res as [[c' chs]|e] end;
+    [|inversion H; subst; exact HI].
+  inv_bind H. destruct x as [r1 cs]. inversion H; subst. cbn [fst].
+  eapply post_conf_change_CInv; [exact Hx|]. cinv.
+Qed.
+
+Theorem load_state_CInv r hs r' c : load_state r hs = Ok r' -> CInv c r -> CInv c r'.
+Proof.
+  unfold load_state. intros H HI.
+  destruct ((hs_commit hs <? committed (r_log r)) || (RaftLog.last_index (r_log r) <? hs_commit hs)) eqn:E;
+    [discriminate|].
+  inversion H; subst. apply orb_false_iff in E. destruct E as [E _].
+  apply (CInv_grow r); [cbn; lia|reflexivity|exact HI].
+Qed.
+
+Theorem request_snapshot_CInv r r' c0 c : request_snapshot r = Ok (r', c0) -> CInv c r -> CInv c r'.
+Proof.
+  unfold request_snapshot. intros H HI.
+  destruct (is_leader r); [inversion H; subst; exact HI|].
+  destruct (r_leader_id r =? INVALID_ID); [inversion H; subst; exact HI|].
+  match type of H with (if ?c then _ else _) = _ => destruct c end; [inversion H; subst; exact HI|].
+  match type of H with (if ?c then _ else _) = _ => destruct c end; [inversion H; subst; exact HI|].
+  inv_bind H. destruct x as [rt|e]; [|discriminate].
+  destruct (r_term r =? rt); [|inversion H; subst; exact HI].
+  inv_bind H. inversion H; subst. eapply send_request_snapshot_CInv; [exact Hx0|]. cinv.
+Qed.
+
+Theorem ping_CInv r r' c : ping r = Ok r' -> CInv c r -> CInv c r'.
+Proof. unfold ping. intros H HI. destruct (is_leader r); [cinv|inversion H; subst; exact HI]. Qed.
+
+Theorem adjust_max_inflight_msgs_CInv r target cp r' c :
+  adjust_max_inflight_msgs r target cp = Ok r' -> CInv c r -> CInv c r'.
+Proof.
+  unfold adjust_max_inflight_msgs. intros H HI.
+  destruct (get_pr r target) as [pr|] eqn:Eg; [|inversion H; subst; exact HI].
+  inv_bind H. inversion H; subst. cinv.
+Qed.
+
+Theorem maybe_free_inflight_buffers_CInv r c : CInv c r -> CInv c (maybe_free_inflight_buffers r).
+Proof. unfold maybe_free_inflight_buffers. intros; cinv. Qed.
+
+Theorem enable_group_commit_CInv r e r' c : enable_group_commit r e = Ok r' -> CInv c r -> CInv c r'.
+Proof.
+  unfold enable_group_commit. intros H HI.
+  set (r0 := r <| r_prs := _ |>) in H. assert (H0 : CInv c r0) by (subst r0; cinv). clearbody r0.
+  destruct (is_leader r0 && negb e); [|inversion H; subst; exact H0].
+  inv_bind H. destruct x as [r1 b]. cbn [fst snd] in H. assert (CInv c r1) by cinv.
+  destruct b; [cinv|inversion H; subst; assumption].
+Qed.
+
+Theorem assign_commit_groups_CInv r ids r' c :
+  assign_commit_groups r ids = Ok r' -> CInv c r -> CInv c r'.
+Proof.
+  unfold assign_commit_groups. intros H HI. inv_bind H.
+  set (r0 := r <| r_prs := _ |>) in H. assert (H0 : CInv c r0) by (subst r0; cinv). clearbody r0.
+  match type of H with (if ?c then _ else _) = _ => destruct c end; [|inversion H; subst; exact H0].
+  inv_bind H. destruct x0 as [r1 b]. cbn [fst snd] in H. assert (CInv c r1) by cinv.
+  destruct b; [cinv|inversion H; subst; assumption].
+Qed.
+
+(* ------------------------------------------------------------------ *)
+(* RawNode level, and what leaves the node in a Ready / LightReady *)
+Definition NCInv (c : N) (n : rawnode) : Prop := CInv c (rn_raft n).
+
+Lemma lift_NCInv n x n' c : lift n x = Ok n' -> (forall r, x = Ok r -> CInv c r) -> NCInv c n'.
+Proof.
+  unfold lift. intros H Hq. destruct x as [r|s]; cbn in H; [|discriminate].
+  inversion H; subst. apply Hq. reflexivity.
+Qed.
+
+Lemma lift2_NCInv n x n' c0 c :
+  lift2 n x = Ok (n', c0) -> (forall r c1, x = Ok (r, c1) -> CInv c r) -> NCInv c n'.
+Proof.
+  unfold lift2. intros H Hq. destruct x as [[r c1]|s]; cbn in H; [|discriminate].
+  inversion H; subst. eapply Hq. reflexivity.
+Qed.
+
+Theorem rn_step_NCInv n m n' c0 c : rn_step n m = Ok (n', c0) -> NCInv c n -> NCInv c n'.
+Proof.
+  unfold rn_step. intros H HI.
+  destruct (is_local_msg (m_type m)); [inversion H; subst; exact HI|].
+  match type of H with (if ?c then _ else _) = _ => destruct c end; [|inversion H; subst; exact HI].
+  eapply lift2_NCInv; [exact H|]. intros r c1 E. eapply step_CInv; [exact E|exact HI].
+Qed.
+
+Theorem rn_tick_NCInv n n' b c : rn_tick n = Ok (n', b) -> NCInv c n -> NCInv c n'.
+Proof.
+  unfold rn_tick. intros H HI. inv_bind H. destruct x as [r b0]. inversion H; subst.
+  unfold NCInv. cbn. eapply tick_CInv; [exact Hx|exact HI].
+Qed.
+
+Theorem rn_campaign_NCInv n n' c0 c : rn_campaign n = Ok (n', c0) -> NCInv c n -> NCInv c n'.
+Proof.
+  unfold rn_campaign. intros H HI. eapply lift2_NCInv; [exact H|].
+  intros r c1 E. eapply step_CInv; [exact E|exact HI].
+Qed.
+
+Theorem rn_propose_NCInv n ctx data n' c0 c :
+  rn_propose n ctx data = Ok (n', c0) -> NCInv c n -> NCInv c n'.
+Proof.
+  unfold rn_propose. intros H HI. eapply lift2_NCInv; [exact H|].
+  intros r c1 E. eapply step_CInv; [exact E|exact HI].
+Qed.
+
+Theorem rn_propose_conf_change_NCInv n ctx data ty ci n' c0 c :
+  rn_propose_conf_change n ctx data ty ci = Ok (n', c0) -> NCInv c n -> NCInv c n'.
+Proof.
+  unfold rn_propose_conf_change. intros H HI. eapply lift2_NCInv; [exact H|].
+  intros r c1 E. eapply step_CInv; [exact E|exact HI].
+Qed.
+
+Theorem rn_apply_conf_change_NCInv n cc n' o c :
+  rn_apply_conf_change n cc = Ok (n', o) -> NCInv c n -> NCInv c n'.
+Proof.
+  unfold rn_apply_conf_change. intros H HI. inv_bind H. destruct x as [r o0]. inversion H; subst.
+  unfold NCInv. cbn. eapply raft_apply_conf_change_CInv; [exact Hx|exact HI].
+Qed.
+
+Theorem rn_ping_NCInv n n' c : rn_ping n = Ok n' -> NCInv c n -> NCInv c n'.
+Proof.
+  unfold rn_ping. intros H HI. eapply lift_NCInv; [exact H|].
+  intros r E. eapply ping_CInv; [exact E|exact HI].
+Qed.
+
+(* the messages handed to the application respect the bound, and the queue is drained *)
+Lemma gen_light_ready_NCInv n n' lr c :
+  gen_light_ready n = Ok (n', lr) -> NCInv c n ->
+  NCInv c n' /\ r_msgs (rn_raft n') = [] /\
+  committed (r_log (rn_raft n')) = committed (r_log (rn_raft n)) /\
+  Forall (msg_commit_ok (committed (r_log (rn_raft n')))) (lr_messages lr).
+Proof.
+  unfold gen_light_ready. intros H HI. inv_bind H. inv_bind H. inversion H; subst. clear H.
+  set (ce := match x with Some v => v | None => [] end).
+  pose proof (reduce_uncommitted_size_CInv (rn_raft n) ce c HI) as (K1 & K2).
+  assert (Hc : committed (r_log (reduce_uncommitted_size (rn_raft n) ce)) = committed (r_log (rn_raft n))).
+  { destruct (reduce_uncommitted_spec (rn_raft n) ce) as (_ & _ & _ & [E|E] & _); rewrite E; reflexivity. }
+  unfold NCInv. cbn. split; [split; [exact K1|constructor]|]. split; [reflexivity|].
+  split; [exact Hc|exact K2].
+Qed.
+
+Theorem rn_ready_NCInv n n' rd c :
+  rn_ready n = Ok (n', rd) -> NCInv c n ->
+  NCInv c n' /\ Forall (msg_commit_ok (committed (r_log (rn_raft n')))) (lr_messages (rd_light rd)).
+Proof.
+  unfold rn_ready. intros H HI. inv_bind H. inv_bind H.
+  destruct x0 as [[[snap csi] rec_snap] ms2]. inv_bind H. destruct x0 as [n2 light].
+  inversion H; subst. clear H.
+  eapply gen_light_ready_NCInv in Hx1; [|unfold NCInv; cbn; exact HI].
+  destruct Hx1 as (A & _ & _ & B). unfold NCInv in *. cbn. split; [exact A|exact B].
+Qed.
+
+Lemma commit_ready_NCInv n rd n' c : commit_ready n rd = Ok n' -> NCInv c n -> NCInv c n'.
+Proof.
+  unfold commit_ready. intros H HI.
+  set (n0 := match rd_ss rd with Some ss => n <| rn_prev_ss := ss |> | None => n end) in H.
+  assert (H0 : NCInv c n0) by (subst n0; destruct (rd_ss rd); exact HI). clearbody n0.
+  set (n1 := match rd_hs rd with Some hs => n0 <| rn_prev_hs := hs |> | None => n0 end) in H.
+  assert (H1 : NCInv c n1) by (subst n1; destruct (rd_hs rd); exact H0). clearbody n1.
+  destruct (rn_records n1); [discriminate|].
+  match type of H with (if ?c then _ else _) = _ => destruct c end; [discriminate|].
+  inv_bind H. inv_bind H. inversion H; subst. unfold NCInv in *. cbn.
+  assert (E1 : committed x = committed (r_log (rn_raft n1))).
+  { destruct (rr_snapshot _) as [[i t]|]; [|inversion Hx; reflexivity].
+    eapply stable_snap_committed; exact Hx. }
+  assert (E2 : committed x0 = committed x).
+  { destruct (rr_last_entry _) as [[i t]|]; [|inversion Hx0; reflexivity].
+    eapply stable_entries_committed; exact Hx0. }
+  apply (CInv_grow (rn_raft n1)); [cbn; lia|reflexivity|exact H1].
+Qed.
+
+Theorem rn_advance_append_async_NCInv n rd n' c :
+  rn_advance_append_async n rd = Ok n' -> NCInv c n -> NCInv c n'.
+Proof. apply commit_ready_NCInv. Qed.
+
+Theorem rn_on_persist_ready_NCInv n num n' c :
+  rn_on_persist_ready n num = Ok n' -> NCInv c n -> NCInv c n'.
+Proof.
+  unfold rn_on_persist_ready. intros H HI.
+  destruct (fold_records (rn_records n) num 0 0 0) as [[[recs index] t] snap_index].
+  inv_bind H. inv_bind H. inversion H; subst. unfold NCInv in *. cbn in *.
+  assert (H1 : CInv c x).
+  { destruct (negb (snap_index =? 0)); [eapply on_persist_snap_CInv; eassumption|].
+    inversion Hx; subst. exact HI. }
+  destruct (negb (index =? 0)); [eapply on_persist_entries_CInv; eassumption|].
+  inversion Hx0; subst. exact H1.
+Qed.
+
+Theorem rn_advance_append_NCInv n rd n' lr c :
+  rn_advance_append n rd = Ok (n', lr) -> NCInv c n ->
+  NCInv c n' /\ Forall (msg_commit_ok (committed (r_log (rn_raft n')))) (lr_messages lr).
+Proof.
+  unfold rn_advance_append. intros H HI. inv_bind H. inv_bind H. inv_bind H.
+  destruct x1 as [n3 light].
+  assert (H2 : NCInv c x0).
+  { eapply rn_on_persist_ready_NCInv; [exact Hx0|]. eapply commit_ready_NCInv; eassumption. }
+  destruct (gen_light_ready_NCInv _ _ _ _ Hx1 H2) as (H3 & _ & _ & Hm).
+  match type of H with (if ?c then _ else _) = _ => destruct c end; [discriminate|].
+  inv_bind H. destruct x1 as [n4 ci].
+  assert (H4 : rn_raft n4 = rn_raft n3).
+  { match type of Hx2 with (if ?c then _ else _) = _ => destruct c end;
+      [inversion Hx2; subst; reflexivity|].
+    match type of Hx2 with (if ?c then _ else _) = _ => destruct c end; [discriminate|].
+    inversion Hx2; subst; reflexivity. }
+  match type of H with (if ?c then _ else _) = _ => destruct c end; [discriminate|].
+  inversion H; subst. unfold NCInv in *. cbn [lr_messages]. rewrite H4. split; assumption.
+Qed.
+
+Theorem rn_advance_apply_to_NCInv n a n' c : rn_advance_apply_to n a = Ok n' -> NCInv c n -> NCInv c n'.
+Proof.
+  unfold rn_advance_apply_to. intros H HI. eapply lift_NCInv; [exact H|].
+  intros r E. eapply commit_apply_CInv; [exact E|exact HI].
+Qed.
+
+Theorem rn_advance_NCInv n rd n' lr c :
+  rn_advance n rd = Ok (n', lr) -> NCInv c n ->
+  NCInv c n' /\ Forall (msg_commit_ok (committed (r_log (rn_raft n')))) (lr_messages lr).
+Proof.
+  unfold rn_advance. intros H HI. inv_bind H. destruct x as [n1 l1]. cbn [fst snd] in H.
+  inv_bind H. inversion H; subst.
+  destruct (rn_advance_append_NCInv _ _ _ _ _ Hx HI) as (A & B).
+  pose proof (rn_advance_apply_to_NCInv _ _ _ (committed (r_log (rn_raft n1))) Hx0) as K.
+  split; [eapply rn_advance_apply_to_NCInv; eassumption|].
+  assert (Hle : committed (r_log (rn_raft n1)) <= committed (r_log (rn_raft n'))).
+  { apply CInv_le. apply K. destruct A as (_ & A2). split; [apply N.le_refl|exact A2]. }
+  eapply Forall_impl; [|exact B]. intros m. apply msg_commit_ok_mono. exact Hle.
+Qed.
+
+Theorem rn_report_unreachable_NCInv n id n' c :
+  rn_report_unreachable n id = Ok n' -> NCInv c n -> NCInv c n'.
+Proof.
+  unfold rn_report_unreachable. intros H HI. inv_bind H. destruct x as [r c1]. inversion H; subst.
+  unfold NCInv. cbn. eapply step_CInv; [exact Hx|exact HI].
+Qed.
+
+Theorem rn_report_snapshot_NCInv n id f n' c :
+  rn_report_snapshot n id f = Ok n' -> NCInv c n -> NCInv c n'.
+Proof.
+  unfold rn_report_snapshot. intros H HI. inv_bind H. destruct x as [r c1]. inversion H; subst.
+  unfold NCInv. cbn. eapply step_CInv; [exact Hx|exact HI].
+Qed.
+
+Theorem rn_request_snapshot_NCInv n n' c0 c :
+  rn_request_snapshot n = Ok (n', c0) -> NCInv c n -> NCInv c n'.
+Proof.
+  unfold rn_request_snapshot. intros H HI. eapply lift2_NCInv; [exact H|].
+  intros r c1 E. eapply request_snapshot_CInv; [exact E|exact HI].
+Qed.
+
+Theorem rn_transfer_leader_NCInv n t n' c : rn_transfer_leader n t = Ok n' -> NCInv c n -> NCInv c n'.
+Proof.
+  unfold rn_transfer_leader. intros H HI. inv_bind H. destruct x as [r c1]. inversion H; subst.
+  unfold NCInv. cbn. eapply step_CInv; [exact Hx|exact HI].
+Qed.
+
+Theorem rn_read_index_NCInv n ctx n' c : rn_read_index n ctx = Ok n' -> NCInv c n -> NCInv c n'.
+Proof.
+  unfold rn_read_index. intros H HI. inv_bind H. destruct x as [r c1]. inversion H; subst.
+  unfold NCInv. cbn. eapply step_CInv; [exact Hx|exact HI].
+Qed.
+
+(* an empty outbound queue satisfies the invariant at the node's own commit index *)
+Lemma CInv_init r : r_msgs r = [] -> CInv (committed (r_log r)) r.
+Proof. intros E. split; [apply N.le_refl|rewrite E; constructor]. Qed.
+
+Theorem set_max_apply_unpersisted_log_limit_CInv r lim c :
+  CInv c r -> CInv c (set_max_apply_unpersisted_log_limit r lim).
+Proof. unfold set_max_apply_unpersisted_log_limit. intros; cinv. Qed.
+
+(* what the invariant says *)
+Theorem CInv_meaning c r :
+  CInv c r ->
+  c <= committed (r_log r) /\
+  forall m, In m (r_msgs r) -> m_type m = MsgAppend \/ m_type m = MsgHeartbeat ->
+    m_commit m <= committed (r_log r).
+Proof.
+  intros (H1 & H2). split; [exact H1|]. intros m Hin Ht.
+  rewrite Forall_forall in H2. apply (H2 m Hin). unfold commit_bearing.
+  destruct Ht as [->| ->]; reflexivity.
+Qed.
+
+Theorem msg_commit_ok_meaning c m :
+  msg_commit_ok c m <-> (m_type m = MsgAppend \/ m_type m = MsgHeartbeat -> m_commit m <= c).
+Proof.
+  unfold msg_commit_ok, commit_bearing. split.
+  - intros H [E|E]; apply H; rewrite E; reflexivity.
+  - intros H Hb. apply H. apply orb_true_iff in Hb. destruct Hb as [E|E]; apply N.eqb_eq in E; auto.
+Qed.
+
+Theorem commit_inv_raft_api : forall c,
+  (forall r m r' c0, step r m = Ok (r', c0) -> CInv c r -> CInv c r') /\
+  (forall r r' b, tick r = Ok (r', b) -> CInv c r -> CInv c r') /\
+  (forall r cc r' o, raft_apply_conf_change r cc = Ok (r', o) -> CInv c r -> CInv c r') /\
+  (forall r i t r', on_persist_entries r i t = Ok r' -> CInv c r -> CInv c r') /\
+  (forall r i r', on_persist_snap r i = Ok r' -> CInv c r -> CInv c r') /\
+  (forall r a r', commit_apply r a = Ok r' -> CInv c r -> CInv c r') /\
+  (forall r ents, CInv c r -> CInv c (reduce_uncommitted_size r ents)) /\
+  (forall r hs r', load_state r hs = Ok r' -> CInv c r -> CInv c r') /\
+  (forall r r' c0, request_snapshot r = Ok (r', c0) -> CInv c r -> CInv c r') /\
+  (forall r r', ping r = Ok r' -> CInv c r -> CInv c r') /\
+  (forall r target cp r', adjust_max_inflight_msgs r target cp = Ok r' -> CInv c r -> CInv c r') /\
+  (forall r, CInv c r -> CInv c (maybe_free_inflight_buffers r)) /\
+  (forall r lim, CInv c r -> CInv c (set_max_apply_unpersisted_log_limit r lim)) /\
+  (forall r e r', enable_group_commit r e = Ok r' -> CInv c r -> CInv c r') /\
+  (forall r ids r', assign_commit_groups r ids = Ok r' -> CInv c r -> CInv c r') /\
+  (forall r s r' b, restore r s = Ok (r', b) -> CInv c r -> CInv c r') /\
+  (forall r r', become_leader r = Ok r' -> CInv c r -> CInv c r') /\
+  (forall r t l r', become_follower r t l = Ok r' -> CInv c r -> CInv c r').
+Proof.
+  intros c. repeat match goal with |- _ /\ _ => split end; intros.
+  - eapply step_CInv; eassumption.
+  - eapply tick_CInv; eassumption.
+  - eapply raft_apply_conf_change_CInv; eassumption.
+  - eapply on_persist_entries_CInv; eassumption.
+  - eapply on_persist_snap_CInv; eassumption.
+  - eapply commit_apply_CInv; eassumption.
+  - apply reduce_uncommitted_size_CInv; assumption.
+  - eapply load_state_CInv; eassumption.
+  - eapply request_snapshot_CInv; eassumption.
+  - eapply ping_CInv; eassumption.
+  - eapply adjust_max_inflight_msgs_CInv; eassumption.
+  - apply maybe_free_inflight_buffers_CInv; assumption.
+  - apply set_max_apply_unpersisted_log_limit_CInv; assumption.
+  - eapply enable_group_commit_CInv; eassumption.
+  - eapply assign_commit_groups_CInv; eassumption.
+  - eapply restore_CInv; eassumption.
+  - eapply become_leader_CInv; eassumption.
+  - eapply become_follower_CInv; eassumption.
+Qed.
+
+Theorem commit_inv_rawnode_api : forall c,
+  (forall n m n' c0, rn_step n m = Ok (n', c0) -> NCInv c n -> NCInv c n') /\
+  (forall n n' b, rn_tick n = Ok (n', b) -> NCInv c n -> NCInv c n') /\
+  (forall n n' c0, rn_campaign n = Ok (n', c0) -> NCInv c n -> NCInv c n') /\
+  (forall n ctx data n' c0, rn_propose n ctx data = Ok (n', c0) -> NCInv c n -> NCInv c n') /\
+  (forall n ctx data ty ci n' c0,
+     rn_propose_conf_change n ctx data ty ci = Ok (n', c0) -> NCInv c n -> NCInv c n') /\
+  (forall n cc n' o, rn_apply_conf_change n cc = Ok (n', o) -> NCInv c n -> NCInv c n') /\
+  (forall n n', rn_ping n = Ok n' -> NCInv c n -> NCInv c n') /\
+  (forall n n' rd, rn_ready n = Ok (n', rd) -> NCInv c n ->
+     NCInv c n' /\ Forall (msg_commit_ok (committed (r_log (rn_raft n')))) (lr_messages (rd_light rd))) /\
+  (forall n num n', rn_on_persist_ready n num = Ok n' -> NCInv c n -> NCInv c n') /\
+  (forall n rd n' lr, rn_advance_append n rd = Ok (n', lr) -> NCInv c n ->
+     NCInv c n' /\ Forall (msg_commit_ok (committed (r_log (rn_raft n')))) (lr_messages lr)) /\
+  (forall n rd n', rn_advance_append_async n rd = Ok n' -> NCInv c n -> NCInv c n') /\
+  (forall n a n', rn_advance_apply_to n a = Ok n' -> NCInv c n -> NCInv c n') /\
+  (forall n rd n' lr, rn_advance n rd = Ok (n', lr) -> NCInv c n ->
+     NCInv c n' /\ Forall (msg_commit_ok (committed (r_log (rn_raft n')))) (lr_messages lr)) /\
+  (forall n id n', rn_report_unreachable n id = Ok n' -> NCInv c n -> NCInv c n') /\
+  (forall n id f n', rn_report_snapshot n id f = Ok n' -> NCInv c n -> NCInv c n') /\
+  (forall n n' c0, rn_request_snapshot n = Ok (n', c0) -> NCInv c n -> NCInv c n') /\
+  (forall n t n', rn_transfer_leader n t = Ok n' -> NCInv c n -> NCInv c n') /\
+  (forall n ctx n', rn_read_index n ctx = Ok n' -> NCInv c n -> NCInv c n').
+Proof.
+  intros c. repeat match goal with |- _ /\ _ => split end; intros.
+  - eapply rn_step_NCInv; eassumption.
+  - eapply rn_tick_NCInv; eassumption.
+  - eapply rn_campaign_NCInv; eassumption.
+  - eapply rn_propose_NCInv; eassumption.
+  - eapply rn_propose_conf_change_NCInv; eassumption.
+  - eapply rn_apply_conf_change_NCInv; eassumption.
+  - eapply rn_ping_NCInv; eassumption.
+  - eapply rn_ready_NCInv; eassumption.
+  - eapply rn_on_persist_ready_NCInv; eassumption.
+  - eapply rn_advance_append_NCInv; eassumption.
+  - eapply rn_advance_append_async_NCInv; eassumption.
+  - eapply rn_advance_apply_to_NCInv; eassumption.
+  - eapply rn_advance_NCInv; eassumption.
+  - eapply rn_report_unreachable_NCInv; eassumption.
+  - eapply rn_report_snapshot_NCInv; eassumption.
+  - eapply rn_request_snapshot_NCInv; eassumption.
+  - eapply rn_transfer_leader_NCInv; eassumption.
+  - eapply rn_read_index_NCInv; eassumption.
+Qed.
